@@ -74,6 +74,22 @@ mod mac_basic__init;
 mod mac_capture__exp;
 mod mac_gensym_disj__par;
 mod mac_disj__exppar;
+mod rnd_core_03__par;
+mod rnd_core_06__ser;
+mod rnd_core_08__pari;
+mod rnd_core_11__par;
+mod rnd_core_14__ser;
+mod rnd_core_16__pari;
+mod rnd_core_19__par;
+mod rnd_core_22__ser;
+mod rnd_core_24__pari;
+mod rnd_core_27__par;
+mod rnd_core_30__ser;
+mod rnd_agg_02__pari;
+mod rnd_agg_05__par;
+mod rnd_agg_08__ser;
+mod rnd_agg_10__pari;
+mod rnd_agg_13__par;
 
 fn lookup(name: &str) -> fn() -> Box<dyn Driven> {
    match name {
@@ -143,6 +159,22 @@ fn lookup(name: &str) -> fn() -> Box<dyn Driven> {
       "mac_capture__exp" => mac_capture__exp::make,
       "mac_gensym_disj__par" => mac_gensym_disj__par::make,
       "mac_disj__exppar" => mac_disj__exppar::make,
+      "rnd_core_03__par" => rnd_core_03__par::make,
+      "rnd_core_06__ser" => rnd_core_06__ser::make,
+      "rnd_core_08__pari" => rnd_core_08__pari::make,
+      "rnd_core_11__par" => rnd_core_11__par::make,
+      "rnd_core_14__ser" => rnd_core_14__ser::make,
+      "rnd_core_16__pari" => rnd_core_16__pari::make,
+      "rnd_core_19__par" => rnd_core_19__par::make,
+      "rnd_core_22__ser" => rnd_core_22__ser::make,
+      "rnd_core_24__pari" => rnd_core_24__pari::make,
+      "rnd_core_27__par" => rnd_core_27__par::make,
+      "rnd_core_30__ser" => rnd_core_30__ser::make,
+      "rnd_agg_02__pari" => rnd_agg_02__pari::make,
+      "rnd_agg_05__par" => rnd_agg_05__par::make,
+      "rnd_agg_08__ser" => rnd_agg_08__ser::make,
+      "rnd_agg_10__pari" => rnd_agg_10__pari::make,
+      "rnd_agg_13__par" => rnd_agg_13__par::make,
       _ => panic!("no such program variant in this shard: {}", name),
    }
 }
